@@ -207,6 +207,7 @@ def prog_from_description(d, source):
                      c['own_va'], c['own_vk'], c['partial'])
         cc.nested = c['nested']
         cc.unresolvable = c.get('unresolvable', False)
+        cc.inline = c.get('inline', False)
         p.calls.append(cc)
     return p
 
